@@ -45,6 +45,18 @@ def judge(acc, source, spec, model, idx, sem_t, sem_c, tags, cls, payload, op=No
         if est != exact_tree:
             # the estimate ignores constraints by design; it must still be the tree count
             acc.count("with-ctcs-estimate-differs-from-tree-count")
+    if op is not None and source.startswith("history:") and not spec.get("ctcs"):
+        # the other public entry point of the same operation object, asked without a new execute()
+        try:
+            direct = op.get_configurations_number()
+            if direct != exact_tree:
+                acc.fail(cls, "exact-without-constraints", "FMEstimatedConfigurationsNumber.get_configurations_number", tags,
+                         "stale-direct-call", f"get_configurations_number()={direct} exact={exact_tree}", payload, key)
+                return
+        except Exception as e:  # noqa: BLE001
+            acc.fail(cls, "no-exception", "FMEstimatedConfigurationsNumber.get_configurations_number", tags,
+                     f"raises:{type(e).__name__}", str(e)[:200], payload, key)
+            return
     acc.held(cls, key)
 
 
